@@ -51,7 +51,7 @@ static int g_nidle_scripted;
 static muggle_event_loop_t *g_ev;
 static muggle_event_context_t g_ctx[MAXD];
 static int g_peer[MAXD];                /* peer fd or -1 */
-static int g_pwr[MAXD], g_shut[MAXD], g_tried[MAXD];
+static int g_pwr[MAXD], g_shut[MAXD], g_tried[MAXD], g_reg[MAXD];
 static long g_written[MAXD], g_delivered[MAXD];
 static int g_closed_cb[MAXD], g_cleared_cb[MAXD];
 static int g_nwake, g_nidle, g_waits;
@@ -167,7 +167,8 @@ static void do_act(const act_t *a)
 	case A_ADD:
 		if (g_tried[d]) break;
 		g_tried[d] = 1;
-		tr(muggle_evloop_add_ctx(g_ev, &g_ctx[d]) == 0 ? "A+%d" : "A-%d", d);
+		g_reg[d] = muggle_evloop_add_ctx(g_ev, &g_ctx[d]) == 0;
+		tr(g_reg[d] ? "A+%d" : "A-%d", d);
 		break;
 	case A_SHUT:
 		muggle_ev_ctx_shutdown(&g_ctx[d]);
@@ -219,6 +220,7 @@ static void cb_close(muggle_event_loop_t *ev, muggle_event_context_t *ctx)
 {
 	int d = (int)(intptr_t)muggle_ev_ctx_data(ctx);
 	g_closed_cb[d]++;
+	g_reg[d] = 0;
 	tr("C%d", d);
 	fire(T_CL, d, 0, 0);
 }
@@ -239,7 +241,16 @@ static void cb_exit(muggle_event_loop_t *ev) { tr("E"); }
 static int on_block(void)      /* returns 1 when the run must be aborted */
 {
 	if (++g_waits > MAX_WAITS) { tr("F"); muggle_evloop_exit(g_ev); return 1; }
-	tr("S");
+	/* clause 2 of the property, observed on the real kernel: is some registered context
+	 * (added, not closed) readable while the loop is about to sleep? */
+	int pending = 0;
+	for (int d = 0; d < g_nd; d++) {
+		if (!g_reg[d]) continue;
+		struct pollfd p = { RFD(d), POLLIN, 0 };
+		__real_poll(&p, 1, 0);
+		if (p.revents & (POLLIN | POLLHUP | POLLERR)) pending = 1;
+	}
+	tr(pending ? "S!" : "S");
 	int k = g_nidle++;
 	if (k < g_nidle_scripted) fire(T_IDLE, k, 0, 0);
 	else { act_t a = { A_XX, 0, 0 }; do_act(&a); }
@@ -337,7 +348,7 @@ static void vh_reset(void)
 static void do_run(int type)
 {
 	memset(g_pwr, 0, sizeof g_pwr); memset(g_shut, 0, sizeof g_shut);
-	memset(g_tried, 0, sizeof g_tried); memset(g_written, 0, sizeof g_written);
+	memset(g_tried, 0, sizeof g_tried); memset(g_reg, 0, sizeof g_reg); memset(g_written, 0, sizeof g_written);
 	memset(g_delivered, 0, sizeof g_delivered); memset(g_closed_cb, 0, sizeof g_closed_cb);
 	memset(g_cleared_cb, 0, sizeof g_cleared_cb);
 	g_nwake = g_nidle = g_waits = 0; g_trlen = 0;
